@@ -179,10 +179,12 @@ Record state := mkState {
   store_of : store;
   clones : list clone;
   remote : option nid;
-  fuel_out : bool          (* an ancestor test ran out of fuel (proved unreachable) *)
+  fuel_out : bool;         (* an ancestor test ran out of fuel (proved unreachable) *)
+  rej : list nat           (* the clones whose latest notes push was rejected: the retry loop of
+                              push_authorship_notes goes round again exactly for these *)
 }.
 
-Definition init (n : nat) : state := mkState [] (repeat (mkClone None None None) n) None false.
+Definition init (n : nat) : state := mkState [] (repeat (mkClone None None None) n) None false [].
 
 Fixpoint set_nth {A} (l : list A) (i : nat) (x : A) : list A :=
   match l, i with
@@ -192,45 +194,72 @@ Fixpoint set_nth {A} (l : list A) (i : nat) (x : A) : list A :=
   end.
 
 Definition set_clone (s : state) (c : nat) (cl : clone) : state :=
-  mkState (store_of s) (set_nth (clones s) c cl) (remote s) (fuel_out s).
+  mkState (store_of s) (set_nth (clones s) c cl) (remote s) (fuel_out s) (rej s).
 Definition add_node (s : state) (nd : node) : state :=
-  mkState (store_of s ++ [nd]) (clones s) (remote s) (fuel_out s).
+  mkState (store_of s ++ [nd]) (clones s) (remote s) (fuel_out s) (rej s).
 Definition set_remote (s : state) (r : option nid) : state :=
-  mkState (store_of s) (clones s) r (fuel_out s).
+  mkState (store_of s) (clones s) r (fuel_out s) (rej s).
 Definition set_fuel_out (s : state) : state :=
-  mkState (store_of s) (clones s) (remote s) true.
+  mkState (store_of s) (clones s) (remote s) true (rej s).
+Definition flag_of (s : state) (c : nat) : bool := existsb (Nat.eqb c) (rej s).
+Definition set_flag (s : state) (c : nat) (b : bool) : state :=
+  mkState (store_of s) (clones s) (remote s) (fuel_out s)
+          (if b then c :: rej s else filter (fun x => negb (Nat.eqb c x)) (rej s)).
+(* a sub-step of a retry (r = true) happens only while the clone's latest push stands rejected *)
+Definition skip (s : state) (r : bool) (c : nat) : bool := r && negb (flag_of s c).
 
 Inductive step :=
 | Commit (c : nat) (k : commit) (v : note)   (* clone c writes note v for commit k *)
-| FetchTracking (c : nat)                    (* tracking := remote tip (forced) *)
-| TestLocal (c : nat)                        (* pending := does refs/notes/ai exist *)
-| MergeLocal (c : nat)                       (* notes merge -s ours / copy, by the pending test *)
-| PushRef (c : nat).                         (* non-forced push of refs/notes/ai *)
+  (* r = false: first attempt (always runs); r = true: a step of a retry, see skip *)
+| FetchTracking (r : bool) (c : nat)         (* tracking := remote tip (forced) *)
+| TestLocal (r : bool) (c : nat)             (* pending := does refs/notes/ai exist *)
+| MergeLocal (r : bool) (c : nat)            (* notes merge -s ours / copy, by the pending test *)
+| PushRef (r : bool) (c : nat).              (* non-forced push of refs/notes/ai; records rejection *)
 
 (* the sub-steps of one user-level push / fetch in the order of the code, cut at the rendezvous
    points of the system-level check: part0 = before the pre-push fetch goes on the wire,
    part1 = up to the point after the fetch (notes-push-merge / notes-fetch-merge),
    part2 = up to the point before the push (notes-push), part3 = the push *)
-Definition push_part0 (c : nat) : list step := if push_test_before_fetch then [TestLocal c] else [].
-Definition push_part1 (c : nat) : list step :=
-  FetchTracking c :: (if negb push_test_before_fetch && push_test_before_sync then [TestLocal c] else []).
-Definition push_part2 (c : nat) : list step :=
-  (if push_test_before_sync then [] else [TestLocal c]) ++ [MergeLocal c].
-Definition push_part3 (c : nat) : list step := [PushRef c].
-Definition PushNotes (c : nat) : list step := push_part0 c ++ push_part1 c ++ push_part2 c ++ push_part3 c.
+Definition push_part0 (r : bool) (c : nat) : list step := if push_test_before_fetch then [TestLocal r c] else [].
+Definition push_part1 (r : bool) (c : nat) : list step :=
+  FetchTracking r c :: (if negb push_test_before_fetch && push_test_before_sync then [TestLocal r c] else []).
+Definition push_part2 (r : bool) (c : nat) : list step :=
+  (if push_test_before_sync then [] else [TestLocal r c]) ++ [MergeLocal r c].
+Definition push_part3 (r : bool) (c : nat) : list step := [PushRef r c].
+(* one round of push_authorship_notes_once *)
+Definition attempt (r : bool) (c : nat) : list step :=
+  push_part0 r c ++ push_part1 r c ++ push_part2 r c ++ push_part3 r c.
+(* the rounds after the first: each runs only while the previous push stands rejected *)
+Fixpoint retries (k : nat) (c : nat) : list step :=
+  match k with O => [] | S j => attempt true c ++ retries j c end.
+(* push_authorship_notes: NOTES_PUSH_ATTEMPTS rounds in total (Gen/GenSync.v) *)
+Definition PushNotes (c : nat) : list step := attempt false c ++ retries (push_attempts - 1) c.
 
-Definition fetch_part0 (c : nat) : list step := if fetch_test_before_fetch then [TestLocal c] else [].
+Definition fetch_part0 (c : nat) : list step := if fetch_test_before_fetch then [TestLocal false c] else [].
 Definition fetch_part1 (c : nat) : list step :=
-  FetchTracking c :: (if negb fetch_test_before_fetch && fetch_test_before_sync then [TestLocal c] else []).
+  FetchTracking false c :: (if negb fetch_test_before_fetch && fetch_test_before_sync then [TestLocal false c] else []).
 Definition fetch_part2 (c : nat) : list step :=
-  (if fetch_test_before_sync then [] else [TestLocal c]) ++ [MergeLocal c].
+  (if fetch_test_before_sync then [] else [TestLocal false c]) ++ [MergeLocal false c].
 Definition FetchNotes (c : nat) : list step := fetch_part0 c ++ fetch_part1 c ++ fetch_part2 c.
+
+(* one round with foreign steps in the two gaps between its processes (the existence test and
+   the merge-or-copy are adjacent processes) *)
+Definition spread (r : bool) (c : nat) (ma mb : list step) : list step :=
+  [FetchTracking r c] ++ ma ++ [TestLocal r c; MergeLocal r c] ++ mb ++ [PushRef r c].
+(* a whole user-level push with foreign steps everywhere: rounds (ma, mb, gap after the round) *)
+Fixpoint spreads (first : bool) (c : nat) (ms : list (list step * list step * list step)) : list step :=
+  match ms with
+  | [] => []
+  | (ma, mb, g) :: rest => spread (negb first) c ma mb ++ g ++ spreads false c rest
+  end.
 
 (* a commit of the same clone while the sync's fetch is on the wire: after part0, before the fetch *)
 Definition PushNotes_commit_on_wire (c : nat) (k : commit) (v : note) : list step :=
-  push_part0 c ++ [Commit c k v] ++ push_part1 c ++ push_part2 c ++ push_part3 c.
+  push_part0 false c ++ [Commit c k v] ++ push_part1 false c ++ push_part2 false c ++ push_part3 false c
+  ++ retries (push_attempts - 1) c.
 Definition PushNotes_commit_after_fetch (c : nat) (k : commit) (v : note) : list step :=
-  push_part0 c ++ push_part1 c ++ [Commit c k v] ++ push_part2 c ++ push_part3 c.
+  push_part0 false c ++ push_part1 false c ++ [Commit c k v] ++ push_part2 false c ++ push_part3 false c
+  ++ retries (push_attempts - 1) c.
 Definition FetchNotes_commit_on_wire (c : nat) (k : commit) (v : note) : list step :=
   fetch_part0 c ++ [Commit c k v] ++ fetch_part1 c ++ fetch_part2 c.
 Definition FetchNotes_commit_after_fetch (c : nat) (k : commit) (v : note) : list step :=
@@ -268,7 +297,8 @@ Definition exec (s : state) (x : step) : state :=
                            (upsert k v (map_of (store_of s) (local cl))) in
           set_clone (add_node s nd) c (mkClone (Some (length (store_of s))) (tracking cl) (pending cl))
       end
-  | FetchTracking c =>
+  | FetchTracking r c =>
+      if skip s r c then s else
       match nth_error (clones s) c with
       | None => s
       | Some cl =>
@@ -277,14 +307,16 @@ Definition exec (s : state) (x : step) : state :=
           | Some r => set_clone s c (mkClone (local cl) (Some r) (pending cl))
           end
       end
-  | TestLocal c =>
+  | TestLocal r c =>
+      if skip s r c then s else
       match nth_error (clones s) c with
       | None => s
       | Some cl =>
           set_clone s c (mkClone (local cl) (tracking cl)
                                  (Some (match local cl with Some _ => true | None => false end)))
       end
-  | MergeLocal c =>
+  | MergeLocal r c =>
+      if skip s r c then s else
       match nth_error (clones s) c with
       | None => s
       | Some cl =>
@@ -310,15 +342,18 @@ Definition exec (s : state) (x : step) : state :=
               end
           end
       end
-  | PushRef c =>
+  | PushRef r c =>
+      if skip s r c then s else
       match push_outcome s c with
       | PCreated | PUpdated =>
           match nth_error (clones s) c with
-          | Some cl => set_remote s (local cl)
+          | Some cl => set_flag (set_remote s (local cl)) c false
           | None => s
           end
       | PFuel => set_fuel_out s
-      | PNoClone | PNoLocal | PRejected => s
+      | PRejected => set_flag s c true       (* [rejected]: the loop goes round again *)
+      | PNoLocal => set_flag s c false       (* another error: returned, no retry *)
+      | PNoClone => s
       end
   end.
 
@@ -380,8 +415,23 @@ Fixpoint writes (n : nat) (sched : list step) : nmap :=
 Definition is_commit (x : step) : bool := match x with Commit _ _ _ => true | _ => false end.
 Definition no_commit (q : list step) : bool := forallb (fun x => negb (is_commit x)) q.
 
-Definition is_push (x : step) : bool := match x with PushRef _ => true | _ => false end.
+Definition is_push (x : step) : bool := match x with PushRef _ _ => true | _ => false end.
 Definition no_push (q : list step) : bool := forallb (fun x => negb (is_push x)) q.
+Definition is_push_of (c : nat) (x : step) : bool := match x with PushRef _ c' => Nat.eqb c' c | _ => false end.
+Definition no_push_of (c : nat) (q : list step) : bool := forallb (fun x => negb (is_push_of c x)) q.
+Fixpoint count_push (q : list step) : nat :=
+  match q with [] => O | x :: r => (if is_push x then 1 else 0) + count_push r end.
+(* the rounds of a spread-out user-level push INSIDE which some notes push (by anybody) falls *)
+Fixpoint overlaps (ms : list (list step * list step * list step)) : nat :=
+  match ms with
+  | [] => O
+  | (ma, mb, _) :: rest => (if no_push (ma ++ mb) then 0 else 1) + overlaps rest
+  end.
+Fixpoint foreign (c : nat) (ms : list (list step * list step * list step)) : bool :=
+  match ms with
+  | [] => true
+  | (ma, mb, g) :: rest => no_push_of c (ma ++ mb ++ g) && foreign c rest
+  end.
 
 (* the block b occurs in q without interleaving *)
 Definition has_block (b q : list step) : Prop := exists x y, q = x ++ b ++ y.
@@ -394,16 +444,26 @@ Definition sub_keys (m1 m2 : nmap) : Prop := forall k, has_key k m1 = true -> ha
    the second push is rejected (non-fast-forward) and silently skipped. *)
 Definition race2 : list step :=
   [Commit 0 10 100; Commit 1 11 101;
-   FetchTracking 0; TestLocal 0; MergeLocal 0;
-   FetchTracking 1; TestLocal 1; MergeLocal 1;
-   PushRef 0; PushRef 1].
+   FetchTracking false 0; TestLocal false 0; MergeLocal false 0;
+   FetchTracking false 1; TestLocal false 1; MergeLocal false 1;
+   PushRef false 0; PushRef false 1].
+
+(* the same race at the level of user commands: the rounds that follow the first one *)
+Definition race2_users : list step :=
+  race2 ++ retries (push_attempts - 1) 0 ++ retries (push_attempts - 1) 1.
+
+(* the retry budget is tight: clone 0 lands a notes push inside every round of clone 1's push *)
+Definition busy (k : commit) : list step := [Commit 0 k (k + 100)] ++ PushNotes 0.
+Definition exhausted : list step :=
+  [Commit 1 11 101] ++
+  spreads true 1 [(busy 10, [], []); (busy 12, [], []); (busy 13, [], [])].
 
 (* three clones, a race between 1 and 2 after 0 has pushed *)
 Definition race3 : list step :=
   [Commit 0 10 100] ++ PushNotes 0 ++
   [Commit 1 11 101; Commit 2 12 102;
-   FetchTracking 1; FetchTracking 2; TestLocal 1; TestLocal 2; MergeLocal 1; MergeLocal 2;
-   PushRef 2; PushRef 1].
+   FetchTracking false 1; FetchTracking false 2; TestLocal false 1; TestLocal false 2;
+   MergeLocal false 1; MergeLocal false 2; PushRef false 2; PushRef false 1].
 
 (* ------------------------------------------------------------------ the known class *)
 (* Known_C10: some clone's notes push (PushRef c) comes after another clone's notes push that
@@ -412,15 +472,15 @@ Definition race3 : list step :=
 Fixpoint window (c : nat) (seen : bool) (q : list step) : bool :=
   match q with
   | [] => false
-  | PushRef c' :: r => if Nat.eqb c' c then seen else window c true r
-  | FetchTracking c' :: r => if Nat.eqb c' c then false else window c seen r
+  | PushRef _ c' :: r => if Nat.eqb c' c then seen else window c true r
+  | FetchTracking _ c' :: r => if Nat.eqb c' c then false else window c seen r
   | _ :: r => window c seen r
   end.
 
 Fixpoint Known_C10 (q : list step) : bool :=
   match q with
   | [] => false
-  | FetchTracking c :: r => window c false r || Known_C10 r
+  | FetchTracking _ c :: r => window c false r || Known_C10 r
   | _ :: r => Known_C10 r
   end.
 
@@ -431,7 +491,7 @@ Definition rejected (o : option pres) : bool :=
    existence test and the copy: update-ref overwrites the note just written *)
 Definition window2 : list step :=
   [Commit 0 10 100] ++ PushNotes 0 ++
-  [FetchTracking 1; TestLocal 1; Commit 1 11 101; MergeLocal 1; PushRef 1].
+  [FetchTracking false 1; TestLocal false 1; Commit 1 11 101; MergeLocal false 1; PushRef false 1].
 
 (* results in a canonical form for the driver: the distinct keys with their values *)
 Definition canon (m : nmap) : nmap :=
@@ -442,6 +502,8 @@ Fixpoint run_trace (s : state) (sched : list step) : list (option pres) * state 
   match sched with
   | [] => ([], s)
   | x :: r =>
-      let o := match x with PushRef c => Some (push_outcome s c) | _ => None end in
+      let o := match x with
+               | PushRef r c => if skip s r c then None else Some (push_outcome s c)
+               | _ => None end in
       let (os, s') := run_trace (exec s x) r in (o :: os, s')
   end.
